@@ -1,6 +1,6 @@
 """C03 (lattice family; see latfam.py)."""
-from . import latfam
+from . import latfam, util
 
-globals().update(latfam.module('C03', ['C03_candidates_are_concepts_partial', 'C03_bottom_is_least', 'C03_bottom_is_concept', 'C03_top_is_concept', 'C03_top_is_greatest', 'C03_all_crosses'],
+globals().update(latfam.module('C03', util.theorems('C03'),
     'contexts: EXH(9 quick/12 thorough)/FAM (Boolean lattices to 2^10 / 2^12)/WIDE/RND; observation = the set of (extent,intent) pairs with multiplicity and len(lattice); non-trivial = >=3 concepts and a concept with more outside objects than upper neighbours (a candidate was rejected or merged); distinct by table',
-    extra_targets=['Tie/Lindig.vo', 'Tie/Matrices.vo'], partial='completeness/uniqueness of the Lindig loop is decided by the correspondence, not yet by a theorem'))
+    extra_targets=['Tie/Lindig.vo', 'Tie/Matrices.vo'], partial=''))
